@@ -10,6 +10,7 @@ from harness import c15_dom as D
 from harness import c15_judges as J
 from harness import c15_lists as LS
 from harness import c15_lst as LT
+from harness import c15_margin as MB
 from harness import c15_pages as P
 from harness import c15_spec as SP
 from harness import c15_styles as S
@@ -161,7 +162,7 @@ class C15(PropCheck):
     extractors = (counter_styles.generate, first_letter_table.generate, list_hints.generate)
     modules = ('WpModel.Props.C15', 'WpModel.Props.C15Pages', 'WpModel.Props.C15Desc', 'WpModel.Props.C15Text',
                'WpModel.Props.C15Lists', 'WpModel.Props.C15PagesTotal', 'WpModel.Props.C15Content',
-               'WpModel.Props.C15Symbols', 'WpModel.Witness.C15')
+               'WpModel.Props.C15Symbols', 'WpModel.Props.C15Margin', 'WpModel.Witness.C15')
     trusted_base = (
         'modelled, not verified: css/validation/descriptors.py (counter-style validators), css/targets.py '
         '(cache_target_page_counters, lookup/store/check_pending), layout/page.py (counter section of make_page), '
@@ -200,6 +201,7 @@ class C15(PropCheck):
         S.rv_line = rv_line
         try:
             self._fixed_regressions(run)
+            self._margin_boxes(run)
             self._styles_ua(run)
             self._styles_custom(run)
             self._update_counters(run)
@@ -284,6 +286,20 @@ class C15(PropCheck):
         sec.add(S.rv_line('ua', {}, int(S.dec(n_pages)) if n_pages else 0, 'decimal'),
                 'ok ' + S.enc(printed) if printed is not None else outcome, meta=meta, nontrivial=True,
                 tags=[fid, 'printed'])
+
+    def _margin_boxes(self, run):
+        sec = run.section(
+            'margin-box-counters',
+            'every make_margin_boxes call (page state in, generated boxes with computed style and laid-out text out) '
+            'of a fixed family of @page rules - every counter-reset / -set / -increment on one margin box x every '
+            'counter()/counters() content on another, both generation orders, with and without page-level counter '
+            'declarations - and of random ones, against Model/MarginCounters.marginTexts; non-trivial = at least two '
+            'generated boxes')
+        documents = MB.family() + [MB.gen_document(run.rng) for _ in range(run.n(25, 400))]
+        for html in documents:
+            for line, out, n_boxes in MB.margin_cases(html):
+                sec.add(line, out, meta={'kind': 'mbox', 'html': html}, nontrivial=n_boxes >= 2,
+                        tags=[f'boxes{min(n_boxes, 4)}'])
 
     def _styles_ua(self, run):
         ua = S.ua_styles()
@@ -666,6 +682,8 @@ class C15(PropCheck):
             return CF.function_clause(meta['text'])
         if kind == 'lst':
             return LT.lst_clause(meta['text'])
+        if kind == 'mbox':
+            return MB.margin_clause(meta['html'])
         if kind == 'dv':
             return J.descriptor_clause(meta['descriptor'], meta['text'])
         if kind == 'rule':
@@ -881,6 +899,13 @@ class C15(PropCheck):
                         what = f'build raised {type(exc).__name__}: {exc}'
                     if what and add(what, {'meta': {'kind': 'cfn', 'text': f'target-counter("#t", {name})'}}, what):
                         return found
+        for html in MB.family():
+            run.search_stats['evaluations'] += 1
+            what = MB.margin_clause(html)
+            if what and add(what, {'meta': {'kind': 'mbox', 'html': html}}, html):
+                return found
+            if what:
+                break
         # 4. documents: list attributes, scoping, then page numbers
         for _ in range(300):
             if time.time() > deadline:
@@ -1100,7 +1125,8 @@ MANIFEST = {
             'the counter name of every counter function is the identifier as written (never case-folded); '
             'update_counters agrees with the css-lists-3 order on every counter an element does not both set and '
             'increment; cache_target_page_counters re-parses a box with its own page counters; '
-            'a symbols() value the validator accepts renders every value as its padded initial representation or '
+            'a page-margin box prints the page counters as changed by its own declarations only, whatever other margin '
+            'boxes the page generates; a symbols() value the validator accepts renders every value as its padded initial representation or '
             'exactly as decimal does (no exception, no decimal exit for want of symbols); '
             'an accepted target-counter() always names a counter style; the items after <li value=v> count v+1, v+2, … '
             'whatever nested lists the item holds; '
